@@ -9,6 +9,7 @@ import (
 	"errors"
 	"fmt"
 	"math/big"
+	"os"
 	"strings"
 
 	sproto "go.starlark.net/lib/proto"
@@ -73,14 +74,16 @@ type engine struct {
 	known []string // "id\x00detail" of catalogued defects met on the way
 	// classification
 	froze       bool
+	crossNow    bool // the current step's mutating handle shares flag or content with another, frozen handle
 	crossMutate bool // after a freeze, a mutation was attempted through another handle that shares content or flag with a frozen one
 	classes     map[string]bool
+	counts      map[string]int
 	steps       int
 }
 
 func newEngine() *engine {
 	th := newThread()
-	return &engine{w: &world{}, th: th, rd: &reader{th: th}, classes: map[string]bool{}}
+	return &engine{w: &world{}, th: th, rd: &reader{th: th}, classes: map[string]bool{}, counts: map[string]int{}}
 }
 
 func (e *engine) call(fn starlark.Value, args ...starlark.Value) (starlark.Value, error) {
@@ -115,15 +118,25 @@ var bigOK = func(s string) *big.Int {
 	return i
 }
 
+// recent: selectors >= recent count handles from the newest one backwards.
+const recent = 100
+
+func selIndex(sel, n int) int {
+	if sel < 0 {
+		sel = -sel
+	}
+	if sel >= recent {
+		return n - 1 - (sel-recent)%n
+	}
+	return sel % n
+}
+
 func (e *engine) handleAt(sel int) *handle {
 	all := e.w.all()
 	if len(all) == 0 {
 		return nil
 	}
-	if sel < 0 {
-		sel = -sel
-	}
-	return all[sel%len(all)]
+	return all[selIndex(sel, len(all))]
 }
 
 func (e *engine) buildReal(v Val) (starlark.Value, error) {
@@ -300,11 +313,7 @@ func (w *world) buildDyn(v Val) (dyn, error) {
 		if len(all) == 0 {
 			return dyn{}, errUnbuildable{"no handle"}
 		}
-		sel := v.H
-		if sel < 0 {
-			sel = -sel
-		}
-		h := all[sel%len(all)]
+		h := all[selIndex(v.H, len(all))]
 		switch h.kind {
 		case 'm':
 			return dyn{c: cMsg, msg: h.msg}, nil
@@ -345,6 +354,10 @@ func (e *engine) pickPref(sel int, kinds string, pref string) (int, *handle) {
 	}
 	if sel < 0 {
 		sel = -sel
+	}
+	if sel >= recent { // recent+k: the k-th most recently created fitting handle
+		i := idx[len(idx)-1-(sel-recent)%len(idx)]
+		return i, all[i]
 	}
 	i := idx[sel%len(idx)]
 	return i, all[i]
@@ -969,10 +982,22 @@ func (e *engine) step(i int, op Op) (stop bool, err error) {
 	case rerr != nil && merr == nil:
 		return false, bad("%s: failed with %q, but the operation is valid", where, rerr)
 	}
-	if rerr != nil {
-		e.classes["outcome:error"] = true
-	} else if pan == "" {
-		e.classes["outcome:ok"] = true
+	switch {
+	case pan != "":
+		e.counts["op:"+op.Op+":panic(known)"]++
+	case rerr != nil:
+		e.counts["op:"+op.Op+":error"]++
+		if merr != nil && os.Getenv("C20_WHY") != "" {
+			e.counts["why:"+op.Op+":"+merr.Error()]++
+		}
+		if mut != nil && (mut.flag.frozen) {
+			e.counts["mutation-through-frozen-handle:refused"]++
+		}
+	default:
+		e.counts["op:"+op.Op+":ok"]++
+		if mut != nil && e.crossNow {
+			e.counts["mutation-through-handle-sharing-with-frozen:accepted"]++
+		}
 	}
 	if nh != nil && ok {
 		v, isv := res.(starlark.Value)
@@ -1021,7 +1046,8 @@ func (e *engine) step(i int, op Op) (stop bool, err error) {
 // noteCross records the non-triviality criterion: after a freeze, a mutation attempt through a
 // handle other than a frozen one's own wrapper that shares its flag or reaches its content.
 func (e *engine) noteCross(mut *handle) {
-	if !e.froze || e.crossMutate {
+	e.crossNow = false
+	if !e.froze {
 		return
 	}
 	for _, h := range e.w.watched() {
@@ -1029,15 +1055,18 @@ func (e *engine) noteCross(mut *handle) {
 			continue
 		}
 		if h.flag == mut.flag {
-			e.crossMutate = true
-			return
+			e.crossNow = true
+			break
 		}
 		v := newVisitor()
 		v.handle(h)
 		if (mut.msg != nil && v.msgs[mut.msg]) || (mut.list != nil && v.lists[mut.list]) || (mut.mp != nil && v.maps[mut.mp]) {
-			e.crossMutate = true
-			return
+			e.crossNow = true
+			break
 		}
+	}
+	if e.crossNow {
+		e.crossMutate = true
 	}
 }
 
